@@ -1,0 +1,17 @@
+//go:build verif && verif_msm
+
+package bandersnatch
+
+import "github.com/crate-crypto/go-ipa/bandersnatch/fr"
+
+// Verification hooks (build tags verif+verif_msm only): expose the internal MSM
+// entry point and the scalar partitioning so that every implemented window
+// width can be driven directly.
+
+func VerifMsmInner(p *PointProj, c int, points []PointAffine, scalars []fr.Element, splitFirstChunk bool) {
+	msmInnerPointProj(p, c, points, scalars, splitFirstChunk)
+}
+
+func VerifPartitionScalars(scalars []fr.Element, c uint64, scalarsMont bool, nbTasks int) ([]fr.Element, int) {
+	return partitionScalars(scalars, c, scalarsMont, nbTasks)
+}
